@@ -1,5 +1,7 @@
 import Abyss.Props.C05
 import Abyss.Props.C01Gen
+import Abyss.Props.GenCorollaries
+#print axioms Abyss.C05_generated_structure
 #print axioms Abyss.C05_reachable
 #print axioms Abyss.C05_structure
 #print axioms Abyss.C05_reader
